@@ -44,6 +44,16 @@ class _CompoundLatency(LatencyDistribution):
         return Duration.from_seconds(base_dur.to_seconds() + extra_dur.to_seconds())
 
 
+def _layered_latency(
+    base: LatencyDistribution, extras: list[LatencyDistribution]
+) -> LatencyDistribution:
+    """``base`` with every extra layered on top; ``base`` itself when there is none."""
+    latency = base
+    for extra in extras:
+        latency = _CompoundLatency(latency, extra)
+    return latency
+
+
 @dataclass(frozen=True)
 class InjectLatency:
     """Add extra latency to a network link for a time window.
@@ -75,13 +85,20 @@ class InjectLatency:
         if link is None:
             raise ValueError(f"No link found: {self.source_name} -> {self.dest_name}")
 
-        original_latency = link.latency
         extra_dist = ConstantLatency(self.extra_ms / 1000.0)
         src = self.source_name
         dst = self.dest_name
 
         def activate(e: Event) -> None:
-            link.latency = _CompoundLatency(original_latency, extra_dist)
+            # Latency windows on one link may overlap: the link keeps its configured
+            # latency and the extras of the open windows, and applies all of them.
+            extras = getattr(link, "_fault_latency_extras", [])
+            if not extras:
+                link._fault_base_latency = link.latency  # type: ignore[attr-defined]
+            link._fault_latency_extras = [*extras, extra_dist]  # type: ignore[attr-defined]
+            link.latency = _layered_latency(
+                link._fault_base_latency, link._fault_latency_extras  # type: ignore[attr-defined]
+            )
             logger.info(
                 "[FaultInjection] Injected +%sms latency on %s -> %s at %s",
                 self.extra_ms,
@@ -91,7 +108,11 @@ class InjectLatency:
             )
 
         def deactivate(e: Event) -> None:
-            link.latency = original_latency
+            # Only this window's extra goes away; the configured latency is back
+            # once no window is open.
+            extras = [x for x in getattr(link, "_fault_latency_extras", []) if x is not extra_dist]
+            link._fault_latency_extras = extras  # type: ignore[attr-defined]
+            link.latency = _layered_latency(getattr(link, "_fault_base_latency", link.latency), extras)
             logger.info(
                 "[FaultInjection] Restored latency on %s -> %s at %s",
                 src,
